@@ -46,7 +46,7 @@ def valid_case(rng, several=False):
     return case
 
 
-FAULTS = ["spacergrid-cdd-coeff-count", "spacergrid-no-position-in-bundle", "zero-wire-pitch", "axial-regions-cover-core", "power-wrong-count-later-assembly", "power-short-later-assembly", "duct-zero-wall", "pins-do-not-fit", "wire-too-thick", "clad-too-thick", "zero-pin-pitch", "negative-pin-diameter", "zero-duct-ftf",
+FAULTS = ["power-duplicate-item", "spacergrid-cdd-coeff-count", "spacergrid-no-position-in-bundle", "zero-wire-pitch", "axial-regions-cover-core", "power-wrong-count-later-assembly", "power-short-later-assembly", "duct-zero-wall", "pins-do-not-fit", "wire-too-thick", "clad-too-thick", "zero-pin-pitch", "negative-pin-diameter", "zero-duct-ftf",
           "duct-ge-pitch", "unequal-outer-ducts", "axial-regions-overlap", "axial-region-inverted", "missing-bc", "negative-flowrate",
           "unknown-material", "unknown-correlation", "negative-power", "power-gap-between-cells", "power-wrong-pin-count",
           "flow-gap-no-bypass", "zero-core-length", "odd-duct-values", "zero-step-request"]
@@ -191,6 +191,19 @@ def inject(rng, case, fault, lowfid=False, near=False, excess=0.01):
                         r[3] = 0.8 * zmax
             else:                    # drop the top cell of this assembly only
                 c['power']['rows'] = [r for r in rows if not (int(r[0]) == victim and float(r[2]) == zcut)]
+    elif fault == "power-duplicate-item":
+        # in ONE axial cell one item is listed twice and another one not at all: the number of rows is still right
+        rows = c['power']['rows']
+        a0, c0 = int(rows[0][0]), int(rows[0][1])
+        cells = sorted(set(float(r[2]) for r in rows if int(r[0]) == a0 and int(r[1]) == c0))
+        n_items = max(int(r[4]) for r in rows if int(r[0]) == a0 and int(r[1]) == c0)
+        if n_items < 2 or len(cells) < 2:
+            return None
+        zc = rng.choice(cells)
+        i_from, i_to = rng.sample(range(1, n_items + 1), 2)
+        for r in rows:
+            if int(r[0]) == a0 and int(r[1]) == c0 and float(r[2]) == zc and int(r[4]) == i_from:
+                r[4] = i_to
     elif fault == "power-wrong-pin-count":
         c['power']['rows'] = [r for r in c['power']['rows'] if not (int(r[1]) == 1 and int(r[4]) == 1)]
     elif fault == "flow-gap-no-bypass":
